@@ -478,6 +478,9 @@ class TextNmea2000Gateway(AsyncIOClient):
         by the _receive_loop() method.
         """
         data = await self.reader.readline()
+        if not data:
+            # readline() returns an empty result only at end of stream: the gateway closed the connection
+            raise ConnectionError("Connection closed by the gateway (end of stream)")
         self.logger.debug(f"Received: {data.hex()}")
         line = data.decode('utf-8', errors='ignore').strip()
         try:
@@ -683,6 +686,9 @@ class WaveShareNmea2000Gateway(AsyncIOClient):
         It's called repeatedly by the _receive_loop() method.
         """
         data = await self.reader.read(100)
+        if not data:
+            # read() returns an empty result only at end of stream: the serial device is gone
+            raise ConnectionError("Serial connection closed (end of stream)")
         self.logger.debug(f"Received: {data.hex()}")
         assert self._buffer is not None
         self._buffer.extend(data)
